@@ -10,6 +10,7 @@ import RLV.Model.Loop
 import RLV.Model.Menu
 import RLV.Model.MenuSel
 import RLV.Model.Scan
+import RLV.Model.HistWrite
 import RLV.Model.Parser
 import RLV.Model.Sel
 import RLV.Model.Term
@@ -127,10 +128,16 @@ def step (line : String) : String :=
     | .error e => e.show
   | ["undo", ops] => undoSession (parseList ops ",")
   | ["walk", src, ops] => undoSession (parseList ops ",") ((parseList src ",").map parseNats)
-  | ["hwrite", mx, src, line] =>
-    match Hist.writeOne (mx.toInt?.getD (-1)) ((parseList src ",").map parseNats) (parseNats line) with
-    | .ok (l, stop) => s!"ok {",".intercalate (l.map showNats)} {if stop then 1 else 0}"
-    | .error e => e.show
+  | ["hwrite", flags, sizeInt, sizeStr, line, srcs] =>
+    let ss : List (HistW.Str × HistW.Src) := (parseList srcs ";").filterMap (fun f =>
+      match f.splitOn ":" with
+      | [n, k, es] => some (parseNats n, { kind := if k == "1" then .file else .memory, entries := (parseList es ",").map (fun e => if e == "e" then [] else parseNats e) })
+      | _ => none)
+    let maxE := HistW.maxEntries (sizeInt.toInt?.getD 0) (sizeStr == "1")
+    let out := HistW.accept (flags.startsWith "1") (flags.endsWith "1") maxE (parseNats line) ss
+    let sorted := out.toArray.qsort (fun a b => showNats a.1 < showNats b.1) |>.toList
+    "ok " ++ ";".intercalate (sorted.map fun e =>
+      s!"{showNats e.1}:{if e.2.entries.isEmpty then "-" else ",".intercalate (e.2.entries.map fun x => if x.isEmpty then "e" else showNats x)}")
   | ["rnext", rs] =>
     let r : Inputrc.RS := (parseNats rs).toArray
     match Inputrc.scanLine r with
